@@ -75,6 +75,10 @@ def make_values(shape, vk="f", base=1, nan=(), enc="coord"):
             c = ((k * k * 3 + k) % 19) + base + (0.25 * (k % 5) if vk in ("f", "f4") else 0)
         if enc == "big":      # magnitudes that single precision cannot hold exactly (odd numbers above 2**24)
             c = 16777217 + 2 * k + 1000 * (base % 7)
+        if enc == "one":
+            c = 1
+        if enc == "zero":
+            c = 0
         if enc == "small":
             c = (2 + k + base % 3) if vk == "i" else (1.25 + 0.125 * k + (base % 4) * 0.03125)   # never 1: pow(1, nan) == 1
         if vk == "O":
